@@ -2,6 +2,7 @@ package c07
 
 import (
 	"fmt"
+	"github.com/openconfig/goyang/pkg/yang"
 	"strings"
 
 	"verif/mc/dump"
@@ -29,6 +30,13 @@ func scaleCases(tier string) []scalekit.Case {
 	}
 	for n := 1; n <= 24; n++ {
 		out = append(out, scalekit.Case{Shape: "two-revisions-many-imports", N: n})
+	}
+	// n loaded revisions of an augmenting module crossed with the augments only the last round settles
+	// (variant bits: 1 into the implied case of a shorthand leaf, 2 a missing target, 4 a leaf as target)
+	for n := 1; n <= 5; n++ {
+		for v := 1; v < 8; v++ {
+			out = append(out, scalekit.Case{Shape: "revisions-with-last-round-augments", N: n, V: v})
+		}
 	}
 	return out
 }
@@ -105,7 +113,71 @@ func checkTwoRevisions(cs scalekit.Case) scalekit.Verdict {
 	return scalekit.OK()
 }
 
+// revisions-with-last-round-augments: every loaded revision is a module of its own; its augment into
+// the implied case is applied, its inapplicable augments are reported.
+func checkRevisionAugments(cs scalekit.Case) scalekit.Verdict {
+	files := []dump.File{{Name: "a.yang", Text: `module a { namespace "urn:a"; prefix a; container top { choice ch { leaf m { type string; } container sc { leaf in { type string; } } } leaf tl { type string; } } }`}}
+	for r := 0; r < cs.N; r++ {
+		var sb strings.Builder
+		fmt.Fprintf(&sb, `module b { namespace "urn:b"; prefix b; import a { prefix a; } revision 202%d-01-01;`, r)
+		if cs.V&1 != 0 {
+			fmt.Fprintf(&sb, ` augment /a:top/a:ch/a:m { leaf x%d { type string; } }`, r)
+		}
+		if cs.V&2 != 0 {
+			fmt.Fprintf(&sb, ` augment /a:top/a:nope { leaf y%d { type string; } }`, r)
+		}
+		if cs.V&4 != 0 {
+			fmt.Fprintf(&sb, ` augment /a:top/a:tl { leaf z%d { type string; } }`, r)
+		}
+		sb.WriteString(" }")
+		files = append(files, dump.File{Name: fmt.Sprintf("b-202%d.yang", r), Text: sb.String()})
+	}
+	for _, rev := range []bool{false, true} {
+		ms, errs, lerr := scalekit.Load(files, rev)
+		if lerr != nil {
+			return scalekit.Bad("load-error", "loads", lerr.Error())
+		}
+		all := dump.Errors(errs)
+		if cs.V&6 == 0 && len(errs) > 0 {
+			return scalekit.Bad("spurious-errors", "no errors", all)
+		}
+		for r := 0; r < cs.N; r++ {
+			fn := fmt.Sprintf("b-202%d.yang", r)
+			for _, bad := range []struct {
+				bit  int
+				path string
+			}{{2, ":nope"}, {4, ":tl"}} { // (the last step: prefixes may be respelt by the crossing)
+				if cs.V&bad.bit == 0 {
+					continue
+				}
+				found := false
+				for _, e := range errs {
+					if strings.Contains(e.Error(), fn) && strings.Contains(e.Error(), bad.path) {
+						found = true
+					}
+				}
+				if !found {
+					return scalekit.Bad("inapplicable-augment-of-a-revision-not-reported", fmt.Sprintf("an error about augment %s of %s", bad.path, fn), all)
+				}
+			}
+		}
+		if len(errs) > 0 {
+			continue
+		}
+		cs0 := scalekit.Down(yang.ToEntry(ms.Modules["a"]), "top", "ch", "m")
+		for r := 0; r < cs.N; r++ {
+			if cs0 == nil || cs0.Dir[fmt.Sprintf("x%d", r)] == nil {
+				return scalekit.Bad("augment-of-a-revision-not-applied", fmt.Sprintf("leaf x%d in the implied case m", r), "missing")
+			}
+		}
+	}
+	return scalekit.OK()
+}
+
 func checkScale(cs scalekit.Case) scalekit.Verdict {
+	if cs.Shape == "revisions-with-last-round-augments" {
+		return checkRevisionAugments(cs)
+	}
 	if cs.Shape == "many-augments" {
 		return checkManyAugments(cs)
 	}
